@@ -138,12 +138,12 @@ PROPS = {
                    "overflowing_shr returns (floor(value/2^s), value mod 2^s != 0); checked_shl/saturating_shl/wrapping_shl/checked_shr/wrapping_shr follow from those contracts; and the 80 operator impls that impl_shift! generates "
                    "for the ten primitive amount types (<<, >>, <<=, >>= by value and by reference) forward to wrapping_shl / wrapping_shr with the amount cast to usize (bodies re-extracted from the macro-expanded crate); "
                    "rotate_left / rotate_right are the cyclic bit permutation for every amount (bit j of the result is bit (j -+ s) mod BITS of the value) and arithmetic_shr replicates bit BITS-1 (statements about every bit)",
-        level_note="NOT under Verus: the Uint-typed shift amounts (Shl<Uint> etc.: Kani per width). rotate / arithmetic_shr are proved over per-bit operator contracts for <<, >>, |, |= (assumed in unit rotate; justified by units shifts, bits, forward_shift). In unit forward_shift the nested operator uses "
+        level_note="Shl<Uint> / Shr<Uint> (Uint-typed amounts of any magnitude, incl. >= 2^64) are proved in unit shifts (value * 2^s mod 2^BITS resp. floor(value / 2^s) with s the full Uint value; the `.iter().any(..)` test is routed through a wrapper whose body is that expression, Kani-checked); their &/assign shapes are Kani per width. rotate / arithmetic_shr are proved over per-bit operator contracts for <<, >>, |, |= (assumed in unit rotate; justified by units shifts, bits, forward_shift). In unit forward_shift the nested operator uses "
                    "inside the `&T` and compound-assignment impls are resolved by hand to the impl rustc's trait selection picks from the operand types (declared optional rewrites). "
                    "ASSUMED: derived PartialEq (limb-wise == value equality)",
         technique="deductive contracts (Verus, all widths and all shift amounts) + Kani per width for operators, rotations and arithmetic shift",
         units=["core", "basics", "bits", "shifts", "forward_shift", "rotate"],
-        kani=dict(features=None, quick=hs("c05", None, r"_slow"), thorough=hs("c05"), bounds="see kani/src/c05.rs: fixed widths, all values, all shift amounts up to BITS + 64*LIMBS + 1"),
+        kani=dict(features=None, quick=hs("c05", None, r"_slow") + hs("core_specs", r"any_above"), thorough=hs("c05") + hs("core_specs", r"any_above"), bounds="see kani/src/c05.rs: fixed widths, all values, all shift amounts up to BITS + 64*LIMBS + 1"),
         explanation="loop invariant lv(r[L..L+i]) + B^i*carry = lv(self[0..i]) * 2^b (shl) resp. lv(r[k-i..k]) * 2^b + (y mod 2^b) = lv(self[n-i..n]) (shr) with the carry tied to the previous limb; "
                     "lemma_shl_result / lemma_shr_result lift limb facts to value*2^s mod 2^BITS, floor(value/2^s) and the exact lost-bits flag",
         trusted=COMMON_TRUST,
